@@ -130,7 +130,7 @@ class Location(Spec):
         self.lon, self.lat = case.pat['lon'], case.pat['lat']
         self.rejects = None
         bbox = kw.get('bbox', (-180, -90, 180, 90))
-        if len(self.lon) != len(self.lat):
+        if len(self.lon) != len(self.lat) or case.meta.get('class') == 'shape-mismatch':
             self.rejects = ('ValueError',)
             return
         if not isinstance(bbox, (list, tuple)) or len(bbox) != 4:
